@@ -342,7 +342,9 @@ def decide(prop, tier, seed, units, results, wall):
             except FileNotFoundError as e:
                 bind_errors.append(str(e))
     for b in bind_errors:
-        undecided.append(("binding", "unbound", b))
+        # descriptive only: the obligations themselves bind through attribute access on the
+        # compiled module (a missing callee there is an observable exception, not a binding error)
+        lines.append("NOTE: evidence descriptor not bound: %s" % b)
     # replay files + VIOLATION lines
     seen = set()
     nv = 0
